@@ -188,10 +188,25 @@ func dischargeParts(o *Obligation, dir string, timeoutS int, idx int) {
 // retryFailed: an obligation that did not come back unsat under load is tried once more on an idle machine with
 // three times the time and all solvers at once, before it is reported.
 func retryFailed(obls []*Obligation, dir string, timeoutS int) {
+	var wg sync.WaitGroup
+	sem := make(chan struct{}, 4)
 	for i, o := range obls {
 		if o.isCover || o.Result == "unsat" {
 			continue
 		}
+		wg.Add(1)
+		go func(i int, o *Obligation) {
+			defer wg.Done()
+			sem <- struct{}{}
+			defer func() { <-sem }()
+			retryOne(i, o, dir, timeoutS)
+		}(i, o)
+	}
+	wg.Wait()
+}
+
+func retryOne(i int, o *Obligation, dir string, timeoutS int) {
+	{
 		targets := []*Obligation{o}
 		if o.parts != nil {
 			targets = nil
@@ -211,7 +226,7 @@ func retryFailed(obls []*Obligation, dir string, timeoutS int) {
 			ch := make(chan ans, len(solvers))
 			for _, sd := range solvers {
 				go func(sd solverDef) {
-					r, tx, s := runSolver(sd, q, dir, fmt.Sprintf("r%04d_%d", i, k), timeoutS*3)
+					r, tx, s := runSolver(sd, q, dir, fmt.Sprintf("r%04d_%d", i, k), timeoutS*2)
 					ch <- ans{r, tx, sd.name, s}
 				}(sd)
 			}
